@@ -243,7 +243,9 @@ Definition cont_match (vals : list str) (all neg : bool) (s : subj) : bool :=
   match s with
   | SVal (AStr v) => xorb (existsb (fun f => is_substr f v) vals) neg
   | SVal (ASet l) => if all then xorb (subset vals l) neg else xorb (existsb (fun f => smem f l) vals) neg
-  | SMulti _ => if all then xorb (subset vals []) neg else neg      (* a tuple of sets contains no flag *)
+  | SMulti l =>      (* a list of pulled attribute values: only its string items can equal a flag *)
+      let items := flat_map (fun a => match a with AStr v => [v] | ASet _ => [] end) l in
+      if all then xorb (subset vals items) neg else xorb (existsb (fun f => smem f items) vals) neg
   | SPkg _ => false
   end.
 Definition udc_match (ifm : bool) (vals : list str) (neg : bool) (s : subj) : bool :=
